@@ -205,7 +205,7 @@ theorem inferRoots_printable {T : List (Name × Definition)} {s : Schema}
 theorem reload_main {cfg : Cfg} {pre u : SchemaDoc} {s : Schema} {P : SchemaDoc} (hb : cfg.emitBuiltin = false)
     (hpre : PreludeShape pre) (hu : UserShape pre u) (hload : load (pre.merge u) = .ok s) (hP : Reparsed cfg s P)
     (hrp : RootsPrintable s) : ∃ s', load (pre.merge P) = .ok s' ∧ ReloadEquiv cfg s s' := by
-  obtain ⟨st, r1, d1, F, hvt, hvd, hsd⟩ := loaded_run hload
+  obtain ⟨st, r1, d1, F, hvt, hvd, hsd, _⟩ := loaded_run hload
   have C : Ctx cfg pre u s st r1 d1 P := ⟨hb, hpre, hu, F, hP⟩
   obtain ⟨st', acc0, hb', ht, h1, hD⟩ := C.reload_state
   have E := C.skEq hb' ht h1 hD
